@@ -241,8 +241,8 @@ func (c *vCtx) enumSamples(reduced bool) {
 								// the same sample through its JSON representation (MarshalJSON of the struct,
 								// UnmarshalJSON on the receiving side): every out-of-range label with material of
 								// the requested cell, its row and its column (all quadrants); valid labels for the
-								// honest sample.
-								if (fi >= 2 && ri <= 2) || honest {
+								// honest sample. (Labels 2 and -1 only, own share only: 3 and 255 decode exactly like 2.)
+								if ((fi == 2 || fi == 5) && ri <= 2 && graft == 0) || honest {
 									jclass := "sample/honest/" + axisName(pa) + ",via=json"
 									if !honest {
 										jclass = sclass[ri][ai][fi][graft][1]
@@ -448,6 +448,13 @@ func (c *vCtx) enumRows(reduced bool) {
 				shs  []libshare.Share
 				real string
 			}{{"left-half", src[:w], "LEFT"}, {"right-half", src[w:], "RIGHT"}, {"both", src, "BOTH"}} {
+				tmpl, err := json.Marshal(struct {
+					Shares []libshare.Share `json:"shares"`
+					Side   string           `json:"side"`
+				}{p.shs, "@SIDE@"})
+				if err != nil {
+					panic(err)
+				}
 				for _, label := range []string{"LEFT", "RIGHT", "BOTH", "", "left", "3", "UNKNOWN"} {
 					honest := j == idx && label == p.real
 					class := "row/honest/" + label + ",via=json"
@@ -458,13 +465,7 @@ func (c *vCtx) enumRows(reduced bool) {
 						}
 						class = "row/src=" + rel + ",part=" + p.name + ",jsonside=" + label
 					}
-					doc, err := json.Marshal(struct {
-						Shares []libshare.Share `json:"shares"`
-						Side   string           `json:"side"`
-					}{p.shs, label})
-					if err != nil {
-						panic(err)
-					}
+					doc := bytes.Replace(tmpl, []byte("@SIDE@"), []byte(label), 1)
 					c.try("row", req, func() string {
 						return fmt.Sprintf("JSON document {shares: %s of row %d, side: %q}", p.name, j, label)
 					}, class, honest, honest, ref, func() (error, []libshare.Share) {
